@@ -149,6 +149,7 @@ def run_batch(spec):
         signal.alarm(120)
         try:
             one_program(prog, version, kind, rng, ctr, viols, nontrivial, spec["tier"], do_sub=(n % 4 == 0))
+            common.release_tealer_caches()
             out["cases"] += 1
         except CaseTimeout:
             out["inconclusive"] += 1
